@@ -61,8 +61,11 @@ Canonical(o) ==
 
 (* A malformed observation has no abstract value: it is adopted as form "bad" (C08 is reported on the event *)
 (* that produced it) and every later event that names such a register is skipped, not judged.              *)
+(* precisions at or above 2^30 are outside the model (TLC integers): such a register is adopted as "bad" too, *)
+(* i.e. later events that name it are skipped, but it is NOT reported as malformed                          *)
+Modelable(o) == o.prec < 1073741824
 AbsObs(o) ==
-  IF ~Canonical(o) THEN MkDec("bad", o.neg, Zero, IZero, o.prec, IF o.mode \in Modes THEN o.mode ELSE 0, 0)
+  IF ~Canonical(o) \/ ~Modelable(o) THEN MkDec("bad", o.neg, Zero, IZero, o.prec, IF o.mode \in Modes THEN o.mode ELSE 0, 0)
   ELSE IF o.form = "finite"
   THEN LET ws == WordNats(o)
            N  == ConcatWords(ws, DW)
@@ -401,10 +404,12 @@ TGobStream ==
 (* and word kernels (C07).                                                 *)
 (***************************************************************************)
 WordsIn(ss) == [i \in 1..Len(ss) |-> FromStr(ss[i])]
-NatObserve(ok, pid, tags) ==
+NatObserve2(ok, pid, tags) ==
   /\ l' = l + 1 /\ vres' = vres /\ ctxs' = ctxs /\ pool' = pool /\ regs' = regs /\ dgs' = dgs
   /\ bad' = bad \cup Tag(IF Ev.out # "ok" THEN {<<l, pid, "panic">>, <<l, "C04", "panic">>} ELSE IF ok THEN {} ELSE {<<l, pid, "ret">>}, "")
   /\ cov' = Bump({Ev.op} \cup tags)
+NatObserve(ok, pid, tags0) ==
+  /\ LET tags == IF Ev.out = "ok" THEN tags0 ELSE {Ev.op \o ":panic"} IN NatObserve2(ok, pid, tags)
 LenClass(n) == IF n <= 1 THEN ToString(n) ELSE IF n < 10 THEN "2-9" ELSE IF n < 100 THEN "10-99" ELSE ">=100"
 TNMul ==
   /\ l <= Len(T) /\ Ev.op = "N.mul"
